@@ -412,6 +412,9 @@ func cmdCheck(args []string) int {
 		for i, f := range failing {
 			if okc[i] {
 				discharged++
+				k := byKind[f.o.Kind]
+				k[1]++
+				byKind[f.o.Kind] = k
 				continue
 			}
 			if nf := e.Fn(f.o.Fn); nf != nil && len(knownFns) > 0 && !knownFns[f.o.Fn] && nf.Parent() == nil {
